@@ -58,6 +58,7 @@ PROPS = ["C%02d" % i for i in range(1, 21)]
 
 def main():
     src = open(GEN).read()
+    src = src.split("def srcState")[0]
     units = re.findall(r'^  \("((?:[^"\\]|\\.)*)", "([0-9a-f]+)"\),?$', src, re.M)
     if not units:
         sys.exit("no units in " + GEN)
@@ -92,12 +93,14 @@ def main():
                   "set_option maxRecDepth 100000 in",
                   "theorem %s_source_pin : %s_units.all (fun u => BM.Gen.srcPins.contains u) = true := by decide" % (p, p)]
         if p in INVENTORY:
-            lines += ["", "/-- the declarations of the package: a new package-level variable, type, function or file is a",
+            state = [(n, h) for (n, h) in units if "/func/" not in n]
+            lines += ["", "/-- the package-level variables, constants and types of the package (functions are not state): a new",
+                      "    package-level variable — a cache, a pool, a shared default table, a sync.Once — or a changed one is a",
                       "    change to what a policy can share with other policies or remember between calls -/",
-                      "def %s_inventory : List String := [" % p]
-            lines += ["  \"%s\"%s" % (n, "," if i < len(units) - 1 else "") for i, (n, _) in enumerate(units)]
+                      "def %s_inventory : List (String × String) := [" % p]
+            lines += ["  (\"%s\", \"%s\")%s" % (n, h, "," if i < len(state) - 1 else "") for i, (n, h) in enumerate(state)]
             lines += ["]", "", "set_option maxRecDepth 100000 in",
-                      "theorem %s_inventory_pin : BM.Gen.srcPins.map (·.1) = %s_inventory := by decide" % (p, p)]
+                      "theorem %s_inventory_pin : BM.Gen.srcState = %s_inventory := by decide" % (p, p)]
         lines += ["", "end BM.Props", ""]
         open(os.path.join(OUT, p + ".lean"), "w").write("\n".join(lines))
     print("pins written for", commit, {p: len(per[p]) for p in PROPS})
